@@ -1185,10 +1185,8 @@ func buildCombinedPF(v combinedRequired, ci bool, re *syntax.Regexp) func(string
 // parsed the original rule pattern without the (?m) flag (i.e. options.Arguments,
 // not the (?sm)-wrapped data string from newRX).
 func extractExactMatch(re *syntax.Regexp) (lit string, ci bool) {
-	// Unwrap outer captures that regexp/syntax sometimes emits.
-	for re.Op == syntax.OpCapture {
-		re = re.Sub[0]
-	}
+	// A pattern wrapped in a capture group, e.g. (^abc$), is not eligible: the fast path
+	// only stores group 0, so unwrapping would lose the group the rule may capture.
 	if re.Op != syntax.OpConcat || len(re.Sub) != 3 {
 		return "", false
 	}
